@@ -130,8 +130,16 @@ func (g *c03Gen) seq(lineage string, depth, n int) string {
 				lin = lineage + ch
 			}
 			inner := g.seq(lin, depth+1, 1+g.rng.Intn(3))
+			// a forked process may replace its image before it goes on (the rest of its block is run by the new image)
+			if kind == "fork" && g.rng.Chance(35) {
+				inner = "exec; " + inner
+			}
 			end := map[string]string{"fork": "endfork; wait", "vfork": "endfork; wait", "thread": "endthread; join"}[kind]
 			parts = append(parts, kind+"; "+inner+"; "+end)
+			continue
+		}
+		if r == 9 && lineage == "r" && depth == 0 && g.rng.Chance(50) {
+			parts = append(parts, "exec") // the main process replaces its image and goes on with the rest of the program
 			continue
 		}
 		o := c03Op{lineage: lineage, id: g.nextID}
@@ -222,7 +230,7 @@ func (h *c03Handler) CheckSyscall(n string) ptracer.TraceAction {
 
 func runC03(res *Result, d *Driver, tier string, seed uint64) {
 	res.Rule = "part A: handleTrap on synthetic stopped tracees: regenerated code vs hand model (driver) on random registers and verdicts; " +
-		"part B: random programs over fork/vfork/thread trees (depth <= 2) run by the probe under the REAL ptrace runner with a filter that traces the file syscalls and three id getters, kills sethostname and allows the rest, and a handler whose decision function over {allow, ban, kill} is drawn per call (per name for the getters): the values the program itself recorded for every call, the directories that exist afterwards and Result.Status are compared with Model.Verdict.runOps (driver) using the option set of the regenerated setPtraceOption. " +
+		"part B: random programs over fork/vfork/thread trees (depth <= 2; forked processes and the main process may replace their image by execve in the middle of the program) run by the probe under the REAL ptrace runner with a filter that traces the file syscalls and three id getters, kills sethostname and allows the rest, and a handler whose decision function over {allow, ban, kill} is drawn per call (per name for the getters): the values the program itself recorded for every call, the directories that exist afterwards and Result.Status are compared with Model.Verdict.runOps (driver) using the option set of the regenerated setPtraceOption. " +
 		"part C: multi-threaded programs in which one thread makes a filter-killed call while others live on / end the process with exit_group(0) (verdict Disallowed Syscall); bans under every configured BanRet value. non-trivial = program with a ban, a kill or a child process; distinct = script."
 	rng := NewRng(seed, "C03", 1)
 	// ---- part A ----
